@@ -151,10 +151,16 @@ def run(ctx):
             recs.append({"kind": "name", "module": m["name"], "what": m["kind"],
                          "declared": t["version"], "expected": m["version"]})
         meta.append(f"{m['name']}.@name")
-    # FILES naming round trip through the real handler
+    # FILES naming round trip through the real handler.  A platform may be REPORTED under another spelling than its
+    # tables declare (pinned from the audited tree: a MrSteam generator reports its files as MrSt_C..xml / MrSt_S..xml)
+    REPORTED = {"MrSteam": ["MrSt"]}
     from geckolib.driver import GeckoConfigFileProtocolHandler
+    combos_named = []
     for plat, c, l in packs.combos():
-        pname = cur[f"{plat}.@table"]["name"]
+        declared = cur[f"{plat}.@table"]["name"]
+        for pname in [declared] + REPORTED.get(declared, []):
+            combos_named.append((plat, c, l, pname))
+    for plat, c, l, pname in combos_named:
         h = GeckoConfigFileProtocolHandler.response(pname, c, l, parms=("1.1.1.1", 1, b"a", b"b"))
         content = h._content
         p = GeckoConfigFileProtocolHandler()
@@ -175,8 +181,9 @@ def run(ctx):
         for plat, c, l in todo:
             by.setdefault(plat, []).append((plat, c, l))
         todo = [x for plat in sorted(by) for x in (by[plat][0], by[plat][-1])]
-    for plat, c, l in todo:
-        pname = cur[f"{plat}.@table"]["name"]
+    todo = [(plat, c, l, pname) for (plat, c, l) in todo
+            for pname in [cur[f"{plat}.@table"]["name"]] + REPORTED.get(cur[f"{plat}.@table"]["name"], [])]
+    for plat, c, l, pname in todo:
         for stack in ("async", "sync"):
             got = loaded_modules(pname, c, l, stack)
             recs.append({"kind": "connect", "stack": stack, "pack": pname, "cfg": c, "log": l, "module": plat,
